@@ -127,3 +127,79 @@ theorem convRaw_carries (e : Env) (cs : List ANode) (a : Attrs) (hd : a.disabled
       simp [rawS, specAll, specToks, specCmts, specProse, specLit, specVerb, hv, hrv', hsp.2.1, hsp.2.2]
 
 end Typstyle
+
+namespace Typstyle
+open Twin
+
+/-! ### references -/
+
+/-- A reference marker is `@` followed by a target that does not start with `@`. -/
+def refMarkerOK (t : String) : Bool :=
+  match t.toList with
+  | '@' :: rest => rest.head? != some '@'
+  | _ => false
+
+theorem refMarker_target (t : String) (h : refMarkerOK t = true) :
+    t = "@" ++ String.ofList (t.toList.dropWhile (· == '@')) := by
+  unfold refMarkerOK at h
+  cases ht : t.toList with
+  | nil => rw [ht] at h; simp at h
+  | cons c rest =>
+    rw [ht] at h
+    have hc : c = '@' := by
+      by_cases hc : c = '@'
+      · exact hc
+      · simp [hc] at h
+    subst hc
+    simp only at h
+    have hrest : rest.dropWhile (· == '@') = rest := by
+      cases rest with
+      | nil => rfl
+      | cons r rs =>
+        have : r ≠ '@' := by simpa using h
+        simp [List.dropWhile_cons, this]
+    apply String.ext
+    simp only [ht, List.dropWhile_cons, beq_self_eq_true, ↓reduceIte, hrest, String.toList_append, String.toList_ofList]
+    rfl
+
+/-- `@` and the target, as the printer emits them, carry what the marker leaf prescribes. -/
+theorem refMarker_carries (e : Env) (t : String) (a : Attrs) (h : refMarkerOK t = true) :
+    Carries (e.syn "@" ++ e.plit (String.ofList (t.toList.dropWhile (· == '@')))) (specAll (.leaf .refMarker t a)) := by
+  refine ((Carries.mkText e.wd .syn "@").app (Carries.mkText e.wd .plit _)).congr ?_
+  have ht := refMarker_target t h
+  generalize String.ofList (t.toList.dropWhile (· == '@')) = target at ht
+  have hdw : String.ofList (t.toList.dropWhile (· == '@')) = target := by
+    have := refMarker_target t h
+    rw [ht] at this ⊢
+    have h2 : ("@" ++ target).toList = '@' :: target.toList := by simp
+    -- the target does not start with `@`
+    unfold refMarkerOK at h
+    rw [ht, h2] at h
+    simp only at h
+    rw [h2, List.dropWhile_cons]
+    simp only [beq_self_eq_true, ↓reduceIte]
+    cases htt : target.toList with
+    | nil => simp [htt, ← String.toList_inj]
+    | cons r rs =>
+      rw [htt] at h
+      have : r ≠ '@' := by simpa using h
+      rw [List.dropWhile_cons]; simp only [beq_iff_eq, this, ↓reduceIte]
+      rw [← htt, String.ofList_toList]
+  apply Streams.ext'
+  · simp only [specAll, specToks, isCommentKind]
+    simp only [tagS, Streams.app, Pretty.charsOf, Pretty.keepOf]
+    rw [ht]
+    simp [String.toList_append]
+    have hk : Pretty.keepChar '@' = true := by decide
+    apply String.ext
+    simp only [String.toList_append, String.toList_ofList]
+    rw [List.filter_cons, hk]
+    rfl
+  · simp [specAll, specCmts, isCommentKind, tagS, Streams.app, Pretty.charsOf]
+  · simp only [specAll, specProse]
+    simp [tagS, Streams.app, Pretty.charsOf, hdw]
+  · simp only [specAll, specLit]
+    simp [tagS, Streams.app, Pretty.charsOf, hdw]
+  · simp [specAll, specVerb, Kind.isExpr, tagS, Streams.app, Pretty.charsOf]
+
+end Typstyle
